@@ -24,7 +24,7 @@ On(s, e) ==
                     <<"payload_changed", e.payload = Sc.payload>>,
                     <<"waited_not_timeout", s.sent + s.discarded = 0 \/ e.t - s.lastSend = Sc.timeout>>,
                     <<"transmission_after_return", Has(s.ret, "none")>>,
-                    <<"transmission_after_answer", ~s.got /\ ~s.erred>> >>]
+                    <<"transmission_after_answer", ~s.got>> >>]
     [] e.e = "sendto_on_closed" ->
          \* a datagram handed to a transport the sender itself has closed / aborted never reaches the wire; one handed to a socket that
          \* went away on its own is an attempt all the same
@@ -35,19 +35,23 @@ On(s, e) ==
     [] e.e = "lost" -> [st |-> [(IF s.erred THEN s ELSE [s EXCEPT !.erred = TRUE, !.errAt = e.t]) EXCEPT !.closed = @ \cup {e.k}], cl |-> <<>>]
     [] e.e \in {"close", "abort", "gone"} -> [st |-> [s EXCEPT !.closed = @ \cup {e.k}], cl |-> <<>>]
     [] e.e = "ret" ->
-         LET dataFirst == s.got /\ (~s.erred \/ s.firstAt <= s.errAt)
-             errFirst == s.erred /\ ~dataFirst IN
+         \* judged by KIND of outcome against what reached an open socket of the call before the return.  The property does not say what an
+         \* OS error (ICMP) reported for one attempt must do: it may end the call with that error, or count as an unanswered attempt.
+         LET dataFirst == s.got /\ (~s.erred \/ s.firstAt <= s.errAt) IN
          [st |-> [s EXCEPT !.ret = e, !.retAt = e.t],
-          cl |-> IF dataFirst
-                 THEN << <<"returned_not_first_reply", e.kind = "result">>,
+          cl |-> IF e.kind = "result"
+                 THEN << <<"returned_not_first_reply", s.got>>,
                          <<"reply_modified", e.data = s.firstData>>,
                          <<"returned_late", e.t = s.firstAt>> >>
-                 ELSE IF errFirst
-                 THEN << <<"os_error_swallowed", e.kind = "exc" /\ e.cls # "Timeout">>,
-                         <<"returned_late", e.t = s.errAt>> >>
-                 ELSE << <<"timeout_not_raised", e.kind = "exc" /\ e.cls = "Timeout">>,
+                 ELSE IF e.cls = "Timeout"
+                 THEN << <<"timeout_not_raised", TRUE>>,
+                         <<"returned_not_first_reply", ~s.got>>,                       \* a reply had reached the call: it is returned, not a Timeout
                          <<"timeout_at_wrong_time", e.t = Sc.retries * Sc.timeout>>,
-                         <<"fewer_transmissions_than_retries", s.sent + s.discarded = Sc.retries>> >>]
+                         <<"fewer_transmissions_than_retries", s.sent + s.discarded = Sc.retries>> >>
+                 ELSE << <<"timeout_not_raised", s.erred>>,                              \* another exception needs an OS error / lost connection as its cause
+                         <<"returned_not_first_reply", ~dataFirst>>,
+                         <<"os_error_swallowed", e.cls # "Timeout">>,
+                         <<"returned_late", e.t = s.errAt>> >>]
     [] e.e = "settled" ->
          [st |-> s, cl |-> << <<"socket_left_open", s.opened \subseteq s.closed>>,
                               <<"call_never_returned", ~Has(s.ret, "none")>> >>]
@@ -67,7 +71,7 @@ On(s, e) ==
                     <<"returned_not_first_reply", AllUnanswered \/ Sc.script[FirstAnswered] \notin {"reply", "two"}
                                                    \/ (e.ret.kind = "result" /\ (e.ret.data = <<82, 69, 80, 76, 89, FirstAnswered, 1>>
                                                                                  \/ e.ret.data \in { d \in LateData : d[6] < FirstAnswered }))>>,
-                    <<"os_error_swallowed", AllUnanswered \/ Sc.script[FirstAnswered] # "icmp" \/ (e.ret.kind = "exc" /\ e.ret.cls # "Timeout")>> >>]
+                    <<"os_error_swallowed", AllUnanswered \/ Sc.script[FirstAnswered] # "icmp" \/ e.ret.kind = "exc">> >>]
     [] OTHER -> [st |-> s, cl |-> << <<"MACHINERY_unknown_event", FALSE>> >>]
 
 Init == tid \in 1..Len(Traces) /\ l = 1 /\ st = St0 /\ verdict = <<"ok", 0>>
